@@ -323,7 +323,13 @@ def rule_r9(repo):
     return res
 
 
+def rule_r10(repo):
+    """C04.M10 restricted to the veriT evaluators (whose expansions no baseline test runs)"""
+    from .c04 import rule_m10
+    return rule_m10(repo, 'C18.R10', mr.verit_macros)
+
+
 def rules(repo):
     r1 = mr.zip_rule(repo, 'C18.R1', mr.verit_eval_side_functions(repo), floor=9)
     r2 = mr.hyps_rule(repo, 'C18.R2', mr.verit_macros, floor=80)
-    return [r1, r2, rule_r3(repo), rule_r4(repo), rule_r5(repo), rule_r6(repo), rule_r7(repo), rule_r8(repo), rule_r9(repo)]
+    return [r1, r2, rule_r3(repo), rule_r4(repo), rule_r5(repo), rule_r6(repo), rule_r7(repo), rule_r8(repo), rule_r9(repo), rule_r10(repo)]
